@@ -708,7 +708,7 @@ func (r *Run) RequirePhiEdgeAllPaths(rule string, fn *ssa.Function, edgeVal stri
 				continue
 			}
 			for i, e := range phi.Edges {
-				if ff.Term(e) != edgeVal {
+				if !glob(edgeVal, ff.Term(e)) {
 					continue
 				}
 				n++
